@@ -317,7 +317,7 @@ func Walk(g *graphgen.Graph, root model.Val, s *selgen.Sel) Result {
 
 func (w *walker) walk(n model.Val, s rsel, segs []string) bool {
 	w.n++
-	if w.n > 300000 {
+	if w.n > 150000 { // (below the harness-side cap of 200000 visits, so a large walk is inconclusive on both sides)
 		w.res.Err = "reference walk too large"
 		return false
 	}
